@@ -823,7 +823,7 @@ pub fn run_c06(ctx: &Ctx) -> ! {
     let mut rep = Report::new(
         ctx,
         "model_checking",
-        "well-formed messages (D-corpus + curated short ones) x payload {none, [03], IPP look-alike, 70 000 patterned bytes, 1 MiB + 64 KiB + 1 for two inputs} x read fragmentations of the header+attributes section (whole = read-ahead possible; uniform sizes 1..64; every 1-cut; every 2-cut for short messages; EVERY composition for messages <= 16 (21) bytes) x for the blocking reader Err(Interrupted) before each chunk and twice x for the async reader a not-ready answer before each chunk x entry points parse / parse_parts x both parsers; plus the document of a parsed message taken as IppPayload and read through the OTHER interface (async-parsed -> std::io::Read, blocking-parsed -> AsyncRead) while the source keeps fragmenting and answering not-ready / Interrupted after the end tag. A monitor inside the scripted source records bytes delivered and the furthest offset any read ever ASKED for at the moment parse returns. Oracle: delivered == |header+attributes| exactly, nothing requested beyond it, payload read afterwards is byte-identical, content equals the whole-delivery result. states = distinct (input, number of chunks, interrupts / readiness mode) triples; transitions = read calls answered; non-trivial = more than one chunk",
+        "well-formed messages (D-corpus + curated short ones) x payload {none, [03], IPP look-alike, 70 000 patterned bytes, 1 MiB + 64 KiB + 1 for two inputs} x read fragmentations of the header+attributes section (whole = read-ahead possible; uniform sizes 1..64; every 1-cut; every 2-cut for short messages; EVERY composition for messages <= 16 (21) bytes) x for the blocking reader Err(Interrupted) before each chunk and twice x for the async reader a not-ready answer before each chunk x entry points parse / parse_parts x both parsers; plus the document of a parsed message taken as IppPayload and read through the OTHER interface (async-parsed -> std::io::Read, blocking-parsed -> AsyncRead) while the source keeps fragmenting and answering not-ready / Interrupted after the end tag; plus documents of 1 GiB + 4097 (thorough: and 4 GiB + 4097) bytes streamed from a pattern generator and verified on the fly. A monitor inside the scripted source records bytes delivered and the furthest offset any read ever ASKED for at the moment parse returns. Oracle: delivered == |header+attributes| exactly, nothing requested beyond it, payload read afterwards is byte-identical, content equals the whole-delivery result. states = distinct (input, number of chunks, interrupts / readiness mode) triples; transitions = read calls answered; non-trivial = more than one chunk",
     );
     let tier = ctx.tier;
     let limit = tier.pick(16usize, 21usize);
@@ -1043,6 +1043,97 @@ pub fn run_c06(ctx: &Ctx) -> ! {
         s.merge(p);
     }
     rep.section("payload-through-the-other-interface", s);
+
+    // (3) documents far beyond any round size: streamed from a pattern generator and verified on the fly (nothing is
+    // stored), through parse()/into_payload and parse_parts()/into_inner, both parsers. Whatever cap, counter width or
+    // adaptor sits between the source and the payload shows as a short or altered document.
+    let huge: &[u64] = tier.pick(&[(1u64 << 30) + 4097][..], &[(1u64 << 30) + 4097, (1u64 << 32) + 4097][..]);
+    let mut jobs: Vec<(u64, bool, Entry)> = vec![];
+    for &len in huge {
+        for async_parse in [false, true] {
+            for entry in [Entry::Parse, Entry::Parts] {
+                jobs.push((len, async_parse, entry));
+            }
+        }
+    }
+    let head = {
+        let mut m = r1::Msg::new(0x0101, 0x0002, 9);
+        m.groups.push(r1::Group { tag: r1::TAG_OPERATION, attrs: vec![r1::Attr { name: b"attributes-charset".to_vec(), values: vec![r1::Val::Str(r1::T_CHARSET, b"utf-8".to_vec())] }] });
+        Arc::new(r1::encode(&m))
+    };
+    let parts = par_slice(ctx.threads, &jobs, Stats::new, |st, _, (len, async_parse, entry)| {
+        st.evaluations += 1;
+        st.traces += 1;
+        st.nontrivial.insert(fnv(format!("huge:{}:{}:{:?}", len, async_parse, entry).as_bytes()));
+        let head2 = head.clone();
+        let (len, async_parse, entry) = (*len, *async_parse, *entry);
+        let r = std::panic::catch_unwind(std::panic::AssertUnwindSafe(move || -> Result<PatternCheck, String> {
+            let src = PatternSource::new(head2, len);
+            let mut chk = PatternCheck::new();
+            let mut buf = vec![0u8; 1 << 16];
+            if async_parse {
+                let mon = Monitor::new();
+                let fut = async move {
+                    let parser = AsyncIppParser::new(AsyncIppReader::new(src));
+                    let mut rest: Box<dyn futures_util::io::AsyncRead + Unpin> = match entry {
+                        Entry::Parse => Box::new(parser.parse().await.map_err(|e| format!("parse error {:?}", e))?.into_payload()),
+                        Entry::Parts => Box::new(parser.parse_parts().await.map_err(|e| format!("parse error {:?}", e))?.2.into_inner()),
+                    };
+                    loop {
+                        match rest.read(&mut buf).await {
+                            Ok(0) => break,
+                            Ok(n) => chk.feed(&buf[..n]),
+                            Err(e) => return Err(format!("payload read error {:?} after {} bytes", e.kind(), chk.received)),
+                        }
+                    }
+                    Ok(chk)
+                };
+                match run_manual(fut, &mon, 64, None) {
+                    Run::Done { value, .. } => value,
+                    _ => Err("the future did not finish although the source is always ready".into()),
+                }
+            } else {
+                let parser = IppParser::new(IppReader::new(src));
+                let mut rest: Box<dyn Read> = match entry {
+                    Entry::Parse => Box::new(parser.parse().map_err(|e| format!("parse error {:?}", e))?.into_payload()),
+                    Entry::Parts => Box::new(parser.parse_parts().map_err(|e| format!("parse error {:?}", e))?.2.into_inner()),
+                };
+                loop {
+                    match rest.read(&mut buf) {
+                        Ok(0) => break,
+                        Ok(n) => chk.feed(&buf[..n]),
+                        Err(e) if e.kind() == ErrorKind::Interrupted => continue,
+                        Err(e) => return Err(format!("payload read error {:?} after {} bytes", e.kind(), chk.received)),
+                    }
+                }
+                Ok(chk)
+            }
+        }));
+        st.transitions += len / (1 << 16);
+        let which = if async_parse { "async" } else { "blocking" };
+        let case = json!({"huge_payload": len, "parser": which, "entry": format!("{:?}", entry)});
+        match r {
+            Ok(Ok(chk)) if chk.received == len && chk.first_mismatch.is_none() => st.outcome("huge-document-identical"),
+            Ok(Ok(chk)) => {
+                st.outcome("huge-document-differs");
+                st.violate(
+                    format!("{}:huge-document-{}", which, if chk.first_mismatch.is_some() { "corrupt" } else if chk.received < len { "short" } else { "long" }),
+                    format!("{} {:?}: document of {} bytes came back as {} bytes (first altered byte: {:?})", which, entry, len, chk.received, chk.first_mismatch),
+                    case,
+                );
+            }
+            Ok(Err(e)) => {
+                st.outcome("huge-document-lost");
+                st.violate(format!("{}:huge-document-lost", which), format!("{} {:?}: {}", which, entry, e), case);
+            }
+            Err(p) => st.violate(format!("{}:panic", which), panic_text(p), case),
+        }
+    });
+    let mut s = Stats::new();
+    for p in parts {
+        s.merge(p);
+    }
+    rep.section("huge-documents", s);
     rep.set("inputs", json!(inputs.len()));
     rep.set("full_composition_limit_bytes", json!(limit));
     rep.finish()
